@@ -49,7 +49,7 @@ fn main() {
         core::install_panic_hook();
         let dir = core::private_cwd("bench", "w");
         let t = fixture::Torrent::new("t", 16387, &[("f", 2 * 16387 + 5)], true);
-        let cfg = world::WorldCfg { torrent: t.clone(), have: vec![0, 2], peers: vec![world::peer_cfg(0, true)], gated: false };
+        let cfg = world::WorldCfg { torrent: t.clone(), have: vec![0, 2], peers: vec![world::peer_cfg(0, true)], gated: false, stale: vec![] };
         let n = 200;
         let t0 = std::time::Instant::now();
         for _ in 0..n {
